@@ -129,7 +129,7 @@ func strAtoms() []strAtom {
 		}}
 	}
 	return []strAtom{
-		raw("a", hexForms('a', true)...), raw("x"), raw("u"), raw("0"), raw("4"), raw("1"), raw(" "),
+		raw("a", hexForms('a', true)...), raw("x"), raw("u"), raw("0"), raw("4"), raw("1"), raw(" "), raw("}"), raw("{"),
 		q('\''), q('"'),
 		only("\\", append([]string{"\\\\"}, hexForms('\\', true)...)...),
 		only("\n", append([]string{"\\n"}, hexForms('\n', true)...)...),
@@ -207,6 +207,20 @@ func runC13(w *eng.W) {
 		for _, q := range []string{"'", "\""} {
 			emit("invalid-bytes", StrCase{Lit: Bytes(q + raw + q), Want: Bytes(raw)})
 			emit("invalid-bytes", StrCase{Lit: Bytes(q + "x" + raw + "y\\n" + q), Want: Bytes("x" + raw + "y\n")})
+		}
+	}
+	// long literals made of several pieces (raw runs separated by escapes), with piece lengths on both sides of
+	// the sizes at which a scanner might switch buffers: the pieces keep their order
+	for _, l1 := range []int{1, 31, 32, 33, 60, 63, 64, 65, 70, 127, 128, 129, 255, 256, 257, 1000} {
+		if !w.Take() {
+			continue
+		}
+		for _, l2 := range []int{0, 1, 10, 63, 64, 65, 200} {
+			for _, q := range []string{"'", "\""} {
+				lit := q + strings.Repeat("a", l1) + "\\n" + strings.Repeat("b", l2) + "\\t" + strings.Repeat("c", 3) + "\\x41" + strings.Repeat("d", l2) + "\\u4e2d" + q
+				want := strings.Repeat("a", l1) + "\n" + strings.Repeat("b", l2) + "\t" + "ccc" + "A" + strings.Repeat("d", l2) + "中"
+				emit("long-pieces", StrCase{Lit: Bytes(lit), Want: Bytes(want)})
+			}
 		}
 	}
 	// a rejected text parsed immediately before must not influence the next literal
